@@ -23,7 +23,7 @@ PROP = "C15"
 MODULES = ["PanderaModel.Props.C15"]
 
 NAMES = ["a", "b", "c", "d", "e", "f"]
-INAMES = ["i0", "i1", "i2"]
+INAMES = ["i0", "i1", "i2", "i3"]
 DTYPES = ["int64", "float64", "str", "bool", "None"]
 DATA = {"int64": [1, 2, 3], "float64": [1.5, 2.5, 3.5], "str": ["x", "y", "z"], "bool": [True, False, True],
         "None": [1, 2, 3]}
@@ -184,12 +184,14 @@ def gen_schema(rng, backend):
     cols = [gen_component(rng, backend, nm) for nm in names]
     index, mi = [], {}
     if backend == "pandas":
-        k = rng.choice([0, 0, 1, 1, 2, 3])
+        k = rng.choice([0, 0, 1, 1, 2, 3, 3, 4])
         index = [gen_component(rng, backend, INAMES[j], dtype=rng.choice(["int64", "str", "float64"]), for_index=True)
                  for j in range(k)]
         if k >= 2:
-            mi = {"coerce": rng.random() < 0.2, "strict": rng.random() < 0.2, "ordered": rng.random() < 0.8,
+            mi = {"coerce": rng.random() < 0.3, "strict": rng.random() < 0.3, "ordered": rng.random() < 0.6,
                   "name": rng.choice([None, "mi"])}
+            if rng.random() < 0.2:
+                mi["unique"] = [INAMES[0], INAMES[1]]
             if not mi["ordered"]:
                 pass
     top = {"strict": rng.random() < 0.3, "ordered": rng.random() < 0.3, "coerce": rng.random() < 0.2,
@@ -338,7 +340,8 @@ def gen_ops(rng, backend, A):
             if invalid:
                 ops.append({"op": "resetIndex", "level": ["nope"], "drop": drop})
                 break
-            level = None if rng.random() < 0.5 else rng.sample(idx, rng.randint(1, len(idx)))
+            # mostly partial resets of a MultiIndex (the levels that stay keep the MultiIndex and its options)
+            level = None if rng.random() < 0.35 else rng.sample(idx, rng.randint(1, max(1, len(idx) - 1)))
             if rng.random() < 0.05:
                 level = []
             ops.append({"op": "resetIndex", "level": level, "drop": drop})
@@ -716,7 +719,9 @@ def accept_mirror(rep, c, r):
         if v != "ok":
             region = None
             ordered = dict(fps[j]["top"]).get("ordered") == "True"
-            if op["op"] == "resetIndex" and not op["drop"] and ordered and reasons == ["COLUMN_NOT_ORDERED"]:
+            drops = dict(fps[j]["top"]).get("drop_invalid_rows") == "True"      # row errors of the original were dropped
+            if op["op"] == "resetIndex" and not op["drop"] and ordered and "COLUMN_NOT_ORDERED" in reasons and \
+                    (reasons == ["COLUMN_NOT_ORDERED"] or drops):
                 region = "K_C15_resetIndexOrder"
             rep.property_failure(c, f"op #{j} {op['op']}: the original accepts D but the transformed schema gives "
                                     f"{v} on the transformed frame", region=region)
